@@ -1,10 +1,12 @@
 #!/bin/bash
-# tools/seed_confirm.sh <ID> <A|B> — confirms a sub-agent's seeded change in its own scratch worktree:
+# tools/seed_confirm.sh <ID> <A|B> [base dir] [kept name] — confirms a sub-agent's seeded change in its own scratch worktree:
 #   demo fails with the change, passes without; tree builds; tests of touched + dependent packages pass.
 # Then copies it to /verif/seeded/<ID>-<A|B>/ (patch.diff, demo, notes).  Full-suite confirmation: seed_fullsuite.sh.
 set -u
 ID=$1; X=$2
-S=/tmp/seed/$ID; WT=$S/wt; OUT=$S/out
+BASE="${3:-/tmp/seed}"       # second round: /tmp/seed2
+NAME="${4:-$X}"              # kept as seeded/<ID>-<NAME> (second round: C, D)
+S=$BASE/$ID; WT=$S/wt; OUT=$S/out
 export GOFLAGS=-mod=mod GOPROXY=off
 cd "$WT" || exit 2
 git checkout -q -- . ; git clean -fdq
@@ -25,6 +27,6 @@ echo "--- demo WITH change (must fail)"
 go test -vet=off -count=1 "${T[@]}" -run "$runname" "./$demo_dir/" 2>&1 | grep -E "^(ok|FAIL|--- FAIL|panic)" | head -5
 rm -f "$WT/$demo_dir/zz_seed_${X}_test.go"
 echo "--- files changed:"; git diff --stat | tail -4
-D=/verif/seeded/$ID-$X; mkdir -p "$D"
+D=/verif/seeded/$ID-$NAME; mkdir -p "$D"
 cp "$OUT/$X.diff" "$D/patch.diff"; cp "$OUT/${X}_demo_test.go" "$D/demo_test.go"; cp "$OUT/${X}_demo.txt" "$D/demo.txt"; cp "$OUT/$X.md" "$D/notes.md"
 git checkout -q -- . ; git clean -fdq
